@@ -17,6 +17,7 @@ import (
 )
 
 type solverCfg struct {
+	scale    int // multiplies the short budgets of the first attempts (second-chance pass)
 	timeout  time.Duration
 	cacheDir string
 	useCache bool
@@ -232,7 +233,7 @@ func (u *Unit) discharge(o *Obligation, cfg *solverCfg, seq int) {
 	quickDone := false
 	if o.Expect == "unsat" && !cfg.agree {
 		// attempt 0: the full query, first solver, short budget (most obligations end here)
-		res, out, el := runSolver(solvers[0], file, 2*time.Second)
+		res, out, el := runSolver(solvers[0], file, time.Duration(2*cfg.sc())*time.Second)
 		if res == "unsat" || res == "sat" {
 			o.Result, o.Backend, o.TimeS, o.Output = res, solvers[0].name, el, fmt.Sprintf("[%s] %s", solvers[0].name, strings.TrimSpace(firstLines(out, 3)))
 			quickDone = true
@@ -263,7 +264,7 @@ func (u *Unit) discharge(o *Obligation, cfg *solverCfg, seq int) {
 		if dropped {
 			rfile := filepath.Join(cfg.workDir, fmt.Sprintf("q%06d.norec.smt2", seq))
 			os.WriteFile(rfile, []byte(u.smtTextPC(o, o.PC, rax)), 0o644)
-			res, _, el := runSolver(solvers[0], rfile, 3*time.Second)
+			res, _, el := runSolver(solvers[0], rfile, time.Duration(3*cfg.sc())*time.Second)
 			os.Remove(rfile)
 			if res == "unsat" {
 				o.Result, o.Backend, o.TimeS = "unsat", solvers[0].name+"(norec)", el
@@ -276,7 +277,7 @@ func (u *Unit) discharge(o *Obligation, cfg *solverCfg, seq int) {
 			}
 		}
 	}
-	if !quickDone && o.Expect == "unsat" && len(o.PC) > 12 {
+	if !quickDone && o.Expect == "unsat" && len(o.PC) > 12 && cfg.scale <= 1 {
 		// attempt 1: only the assumptions connected to the goal (sound: fewer hypotheses), short budget
 		for ai, att := range [][2]int{{1, 8}, {1, 5}, {2, 5}, {3, 4}} {
 			rounds := att[0]*10 + ai
@@ -304,7 +305,7 @@ func (u *Unit) discharge(o *Obligation, cfg *solverCfg, seq int) {
 			}
 			rfile := filepath.Join(cfg.workDir, fmt.Sprintf("q%06d.r%d.smt2", seq, rounds))
 			os.WriteFile(rfile, []byte(u.smtTextPC(o, rpc, rax)), 0o644)
-			res, _, el := runSolver(solvers[0], rfile, 2*time.Second)
+			res, _, el := runSolver(solvers[0], rfile, time.Duration(2*cfg.sc())*time.Second)
 			os.Remove(rfile)
 			if res == "unsat" {
 				o.Result, o.Backend, o.TimeS = "unsat", solvers[0].name+"(relevant)", el
@@ -316,6 +317,11 @@ func (u *Unit) discharge(o *Obligation, cfg *solverCfg, seq int) {
 				return
 			}
 		}
+	}
+	if !quickDone && cfg.scale > 1 {
+		// second-chance pass: the long portfolio already had its full budget the first time
+		o.Result, o.Backend = "unknown", solvers[0].name
+		return
 	}
 	final := "unknown"
 	backend := ""
@@ -382,6 +388,13 @@ func (u *Unit) discharge(o *Obligation, cfg *solverCfg, seq int) {
 	}
 }
 
+func (c *solverCfg) sc() int {
+	if c.scale < 1 {
+		return 1
+	}
+	return c.scale
+}
+
 func firstLines(s string, n int) string {
 	ls := strings.Split(s, "\n")
 	if len(ls) > n {
@@ -421,4 +434,44 @@ func dischargeAll(units []*Unit, cfg *solverCfg, workers int) {
 	}
 	close(ch)
 	wg.Wait()
+	// second chance: an obligation that no solver decided may simply have lost its time slices to the other 15 workers
+	// (or to whatever else the machine was doing). Ask again, few at a time, with three times the budgets. Only
+	// "unsat" can come out of this that was not there before; a real failure just fails again.
+	var again []job
+	for _, j := range jobs {
+		if j.o.Expect == "unsat" && j.o.Result != "unsat" && j.o.Result != "sat" && !j.o.Short && j.o.Kind != "callsite" {
+			again = append(again, j)
+		}
+	}
+	if len(again) == 0 || len(again) > 8 {
+		return
+	}
+	cfg2 := *cfg
+	cfg2.scale = 3
+	cfg2.timeout = cfg.timeout * 2
+	cfg2.useCache = false
+	ch2 := make(chan job)
+	var wg2 sync.WaitGroup
+	for w := 0; w < 4; w++ {
+		wg2.Add(1)
+		go func() {
+			defer wg2.Done()
+			for j := range ch2 {
+				prev := *j.o
+				j.u.discharge(j.o, &cfg2, j.i)
+				if j.o.Result != "unsat" {
+					t := j.o.TimeS
+					*j.o = prev
+					j.o.TimeS += t
+				} else {
+					j.o.Backend += "(2nd)"
+				}
+			}
+		}()
+	}
+	for _, j := range again {
+		ch2 <- j
+	}
+	close(ch2)
+	wg2.Wait()
 }
